@@ -88,3 +88,21 @@ PROPS['C17'] = dict(
     trusted_base=TB_COMMON + ['ref/refmisc.cc label-wise reference'],
     assumptions=['query names never contain empty labels (the name reader cannot produce them)'],
 )
+
+PROPS['C08'] = dict(
+    bin='c08', sources=['props/c08.cc', 'sim/harness.cc', 'ref/refmisc.cc', 'ref/refdns.cc'], unit_objs=UNIT, engine='rc',
+    enum_parts=12, exhaustive_claim=True,
+    quick=dict(workers=4, cases=40000, budget=40, min_nontrivial=1000, enum_arg=1),
+    thorough=dict(workers=4, cases=2000000, budget=600, min_nontrivial=50000, enum_arg=2),
+    rule='case = (L 100..255, valid tunnel domain of a chosen length 3..min(128,L-24) in three label layouts, codec, header '
+         'length 1 or 5, payload 1..2048 bytes from 6 content classes, plain or wildcard server domain); the name is built '
+         'by build_hostname in the client call shape, sent through dns_encode, parsed by the strict reference parser, decoded '
+         'by dns_decode, matched by query_datalen and extracted by unpack_data in the server call shape. non-trivial iff the '
+         'chunk truncates the payload, or the encoded length is a multiple of 57, or L / domain length is at an extreme',
+    exhaustive_text='every L in 100..255 x every domain length 3..min(128,L-24) x 4 codecs x payload lengths '
+                    '{1,2,block-1,block,block+1,cap-1,cap,cap+1,2048}; header 1 or 5 (both in thorough)',
+    engine_text='exhaustive grid + rapidcheck, unit shape; the real clients emitted names are additionally monitored in the simnet properties (C10 monitor)',
+    bounds='payload <= 2048 bytes',
+    trusted_base=TB_COMMON + ['ref/refdns.cc strict parser', 'ref/refmisc.cc codecs and label-wise matcher', 'glue/unit_api.c'],
+    assumptions=['alphabet index order of protocol 0x00000502 transcribed into ref/refmisc.cc (signature C08:refcodec only)'],
+)
